@@ -1,10 +1,10 @@
-\* quick, exhaustive: every single operation on every small well-formed matrix
+\* spec mutant = the pinned implementation of the submatrix cache (keeps the caller's mask objects): StepsFaithful must be violated
 SPECIFICATION Spec
 CONSTANTS
-  Forms = {"csr"}
-  Shapes <- Shapes2
-  MinNnz = 0
-  MaxNnz = 3
+  Forms = {"coo"}
+  Shapes <- ShapesSub
+  MinNnz = 4
+  MaxNnz = 4
   WildM = 1
   WildN = 1
   WildCooN = 1
@@ -14,15 +14,15 @@ CONSTANTS
   MaxBlockRows = 1
   MaxBlockCols = 1
   MaxBlockNnz = 1
-  Dtypes = {"f", "c"}
+  Dtypes = {"f"}
   WildDtypes = {"f"}
-  Ops = {"neg", "T", "scale", "div", "add", "sub", "submatrix", "pickle"}
-  OpForms = {"csr"}
-  MaxSteps = 1
+  Ops = {"submatrix"}
+  OpForms = {"coo"}
+  MaxSteps = 2
   MaxE = 2
   StrictOrder = TRUE
   LowerBound = TRUE
-  CacheCopies = TRUE
+  CacheCopies = FALSE
 INVARIANT TypeOK
 INVARIANT AcceptIffValid
 INVARIANT ReasonsIffInvalid
@@ -35,5 +35,4 @@ INVARIANT PickleFaithful
 INVARIANT CacheTransparent
 INVARIANT StepsFaithful
 INVARIANT Algebra
-INVARIANT EmitBehaviours
 CHECK_DEADLOCK FALSE
